@@ -38,6 +38,12 @@ type Case struct {
 	// HTTP: drive the handshake through http.Client.Do / RoundTrip of the returned object
 	// (via transport|client only) instead of tls.Client on the returned configuration
 	HTTP bool `json:"http,omitempty"`
+	// Steps: a history. The calls are made one after the other in one process; before each call
+	// the files at the sequence's own paths are brought to the step's disk state. When Steps is
+	// set the top-level option fields are unused.
+	Steps []Step `json:"steps,omitempty"`
+	// Mirror: run Steps forward and then backward and demand the same result per step both times
+	Mirror bool `json:"mirror,omitempty"`
 }
 
 type fail struct {
@@ -80,6 +86,8 @@ func caFileRoots(name string) (roots []string, readable bool) {
 	switch name {
 	case "A", "mixed":
 		return []string{"A"}, true
+	case "B":
+		return []string{"B"}, true
 	case "AB":
 		return []string{"A", "B"}, true
 	case "garbage":
